@@ -36,7 +36,7 @@
    evaluated on every generated datatype by Run.check_case and pinned by two translator facts. *)
 From Coq Require Import ZArith NArith Bool List.
 Import ListNotations.
-Require Import FV.Gen.C01 FV.Base.F64 FV.Base.PyVal FV.C01.Model FV.C01.IdemDefs FV.C01.Lemmas FV.C01.F64More FV.C01.Idem FV.C01.ScaledGrid FV.C01.IdemSmall FV.C01.Refuted.
+Require Import FV.Gen.C01 FV.Base.F64 FV.Base.PyVal FV.C01.Model FV.C01.IdemDefs FV.C01.Lemmas FV.C01.F64More FV.C01.Idem FV.C01.ScaledGrid FV.C01.IdemSmall FV.C01.Refuted FV.C01.FlavourDefs FV.C01.Flavour.
 
 Theorem C01_source_facts :
   unlimited_is_2_64 = true /\ clamp_is_median_of_sorted = true /\ float_validate_shape = true /\
@@ -44,7 +44,7 @@ Theorem C01_source_facts :
   containers_wrap_element_errors = true /\ sequences_check_before_import = true /\
   sequences_reject_str_bytes_dict = true /\ struct_requires_dict = true /\ blob_import_strict = true /\
   struct_checks_missing_after_merge = true /\ float_properties_pass_through_float_call = true /\
-  enum_refuses_duplicates = true.
+  enum_refuses_duplicates = true /\ containers_validate_no_shortcut = true.
 Proof. repeat split; reflexivity. Qed.
 
 Theorem C01_validate_sound : forall d, wf d -> forall v prev r,
@@ -194,6 +194,36 @@ Example C01_negzero_limit_is_outside_idem_dt :
   res_same (dt_validate (TFloat fnegzero (of_Z 1) (fmk 1 (-1)) fzero) (PFloat fnegzero) PNone) (Ok (PFloat fzero)) = true.
 Proof. repeat split; vm_compute; reflexivity. Qed.
 
+(* (flavour) a candidate mapping may be a plain dict or a frozen mapping (ImmutableDict: what StructOf.__call__ -
+   conversion, no limit check - and the validate of ANY struct type return, what a parameter holds).  cval
+   (FlavourDefs.v) keeps the flavour of every mapping of a candidate at every depth; the shared model knows one
+   mapping constructor only, so the flavoured model is the shared one after erase - the decision "the code does not
+   look at the flavour" is checked on the implementation by the correspondence (frozen candidates, Run.v) and pinned by
+   the fact containers_validate_no_shortcut.  thaw c1 = thaw c2: equal items, differing only in the flavour of
+   mappings anywhere in the candidate (lists, tuples, members). *)
+Theorem C01_validate_ignores_candidate_container_flavour : forall d c1 c2 prev,
+  thaw c1 = thaw c2 -> cv_validate d c1 prev = cv_validate d c2 prev /\ cv_call d c1 = cv_call d c2.
+Proof. exact validate_ignores_flavour. Qed.
+
+(* in particular a frozen mapping gets no shortcut: what is returned for it has passed the member loop and lies in
+   the declared value set, like for every other candidate *)
+Theorem C01_validate_sound_any_flavour : forall d, wf d -> forall c prev r,
+  prev_ok d prev -> cv_validate d c prev = Ok r -> in_setb d r = true.
+Proof. intros d Hwf c prev r. exact (validate_sound d Hwf (erase c) prev r). Qed.
+
+Example C01_flavour_nonvacuous :
+  let d := TStruct [(sa, TFloat fzero (of_Z 10) fzero fzero); ([98%N], i05)] [] false in
+  let conv b := CDict b [(sa, CLeaf (PFloat (of_Z 50))); ([98%N], CLeaf (PInt 1))] in      (* = d(dict p=50, i=1) *)
+  has_frozen (conv true) = true /\ thaw (conv true) = thaw (conv false) /\
+  res_same (cv_call d (conv true)) (Ok (erase (conv true))) = true /\
+  res_same (cv_validate d (conv true) PNone) (Err ERange) = true /\
+  res_same (cv_validate (TArray d 0 3) (CList [conv true]) PNone) (Err ERange) = true /\
+  (* the validated value of an other struct type *)
+  res_same (cv_validate d (CDict true [([120%N], CLeaf (PFloat (of_Z 1)))]) PNone) (Err EWrongType) = true /\
+  res_same (cv_validate d (CDict true [(sa, CLeaf (PFloat (of_Z 5))); ([98%N], CLeaf (PInt 1))]) PNone)
+           (Ok (PDict [(sa, PFloat (of_Z 5)); ([98%N], PInt 1)])) = true.
+Proof. repeat split; vm_compute; reflexivity. Qed.
+
 Print Assumptions C01_source_facts.
 Print Assumptions C01_validate_sound.
 Print Assumptions C01_wire_sound.
@@ -212,3 +242,5 @@ Print Assumptions C01_stable_fixed_point.
 Print Assumptions C01_canonical_kind.
 Print Assumptions C01_wire_canonical_kind.
 Print Assumptions C01_refuted_idempotent_scaled_huge.
+Print Assumptions C01_validate_ignores_candidate_container_flavour.
+Print Assumptions C01_validate_sound_any_flavour.
